@@ -37,8 +37,17 @@ func WithCancelCause(p Context) (Context, CancelCauseFunc) {
 // WithTimeout / WithDeadline: the deadline never expires by itself (no real clock);
 // only the explicit cancel is modelled.
 func WithTimeout(p Context, d time.Duration) (Context, CancelFunc) { return WithCancel(p) }
-func WithDeadline(p Context, t time.Time) (Context, CancelFunc)    { return WithCancel(p) }
-func WithValue(p Context, k, v any) Context                        { return context.WithValue(p, k, v) }
-func WithoutCancel(p Context) Context                              { return context.WithoutCancel(p) }
-func Cause(c Context) error                                        { return context.Cause(c) }
-func AfterFunc(c Context, f func()) (stop func() bool)             { panic("vctx.AfterFunc unsupported") }
+
+// WithDeadline: no clock exists under the scheduler, so a deadline in the future never passes (the
+// context behaves like WithCancel); a deadline that lies before the shim's fixed "now" yields a real,
+// already expired context (Err() == DeadlineExceeded), which needs no timer.
+func WithDeadline(p Context, t time.Time) (Context, CancelFunc) {
+	if t.Before(time.Unix(1700000000, 0)) {
+		return context.WithDeadline(p, t)
+	}
+	return WithCancel(p)
+}
+func WithValue(p Context, k, v any) Context            { return context.WithValue(p, k, v) }
+func WithoutCancel(p Context) Context                  { return context.WithoutCancel(p) }
+func Cause(c Context) error                            { return context.Cause(c) }
+func AfterFunc(c Context, f func()) (stop func() bool) { panic("vctx.AfterFunc unsupported") }
